@@ -1,3 +1,4 @@
+\* root module: HttpStreamFull.tla (unregistered since the Limit=3 generator was dropped)
 SPECIFICATION Spec
 CONSTANTS
     Mode = "edges"
